@@ -42,6 +42,16 @@ def predict(cfg, q=None):
             ngeo += 1
             if not dev <= 1e-9:
                 out.append(dict(key='toRZ_position', what='to_RZ differs from r0 + X n + Y b + Z t assembled from the returned coefficients by %.3g (relative to R)' % dev, cfg=jsonable(cfg)))
+            else:
+                # ... and again at the SAME (r, theta) points after the shape has been changed and recalculated (a copy of the object: the checks below use q itself)
+                import copy
+                q2 = copy.deepcopy(q)
+                q2.B2c = q2.B2c + 0.15
+                q2.calculate()
+                dev2 = toRZ_vs_coefficients(q2, np.random.default_rng(7))
+                ngeo += 1
+                if not dev2 <= 1e-9:
+                    out.append(dict(key='toRZ_position', what='after changing B2c and recalculating, to_RZ still returns the old surface: it differs from r0 + X n + Y b + Z t of the current coefficients by %.3g' % dev2, cfg=jsonable(cfg)))
         except Exception as e:
             out.append(dict(key='toRZ_position', what='to_RZ raised %s' % type(e).__name__, cfg=jsonable(cfg)))
         # geometric clause: V' and V'' from the Jacobian of the RETURNED position vector (series algebra of oracle_C01; props/C11_volume.v)
@@ -64,6 +74,25 @@ def predict(cfg, q=None):
     return out, len(checks) + 2 + ngeo
 
 
+def named_p2_zero():
+    """'all three vanish identically when p2 = 0', also when p2 = 0 is REQUESTED from a named configuration whose own pressure is not zero"""
+    out = []
+    import logging
+    qsc_ = import_qsc()
+    for name in ('r2 section 5.3', 'r2 section 5.5'):
+        try:
+            logging.disable(logging.CRITICAL)
+            qn = qsc_.Qsc.from_paper(name, nphi=31, p2=0.0)
+            logging.disable(logging.NOTSET)
+        except Exception:
+            logging.disable(logging.NOTSET)
+            continue
+        if float(qn.p2) != 0.0 or qn.DMerc_times_r2 != 0 or qn.DWell_times_r2 != 0 or qn.DGeod_times_r2 != 0:
+            out.append(dict(key='p2zero-named', what='from_paper(%r, p2=0): p2 = %r, DMerc r^2 = %r, DWell r^2 = %r, DGeod r^2 = %r' % (name, float(qn.p2), float(qn.DMerc_times_r2), float(qn.DWell_times_r2), float(qn.DGeod_times_r2)),
+                            cfg=dict(preset=name, p2=0.0)))
+    return out
+
+
 def main():
     ap = argparse.ArgumentParser()
     for a_ in ('--mode', '--hint', '--file', '--tier'):
@@ -76,11 +105,14 @@ def main():
     dist = {}
     if a.mode == 'replay':
         f = (json.load(open(a.file)).get('failing') or {})
-        if f.get('cfg'):
+        if f.get('key') == 'p2zero-named':
+            res['violations'], res['predictions_checked'] = named_p2_zero(), 2
+        elif f.get('cfg'):
             res['violations'], res['predictions_checked'] = predict(f['cfg'])
         print(json.dumps(res, default=str)); return
     t0 = time.time(); tried = 0
     nn = a.n if a.mode == 'check' else 10 ** 6
+    res['violations'] += named_p2_zero(); res['predictions_checked'] += 2; dist['fixed:named-p2-zero'] = 1
     for c_, q_ in corpus_objects(('r2', 'r3')):          # distilled regression inputs first
         v, n = predict(c_, q_)
         res['predictions_checked'] += n; res['violations'] += v; res['configs'] += 1
